@@ -77,6 +77,157 @@ def check_records(ctx, key, what, s, r_for_replay, returned, new_lines, new_msgs
             ctx.violation(key + "amqp-message-missing-or-wrong", "%s without exactly one correct message at the broker: %s" % (what, bad), rep)
 
 
+# ---------------------------------------------------------------------------------------------------------------------
+# the audit file at the level of system calls (harness/p/c06/appenders.go): the real AppendTo, records of chosen length,
+# many goroutines / several processes on one file, strace for the write(2) calls
+
+MODEL_MAX_J = 140000      # records longer than this are judged by the oracle only (the extracted model recurses on byte lists)
+MODEL_MAX_FILE = 130000   # ... and schedules are replayed by the model only when the whole file stays below this
+DELAY_US = 1500
+
+
+def app_spec(s):
+    return {"kind": "appenders", "mode": s["mode"], "procs": s["procs"], "sizes": s["sizes"], "fail_k": s["fail_k"],
+            "delay_us": DELAY_US if s["mode"] == "strace-delay" else 0}
+
+
+def app_compact(s):
+    bad = [dict(l, line=i + 1) for i, l in enumerate(s["lines"] or []) if l.get("bad")]
+    return dict(s, lines=bad[:20], n_lines=len(s["lines"] or []), writes=(s["writes"] or [])[:60], recs=(s["recs"] or [])[:60])
+
+
+def attribute_writes(recs, writes):
+    """sequential appender: hand the write(2) calls to the records in order; a record owns calls until j+1 bytes were
+    taken (or a call failed)"""
+    out, k = [], 0
+    for r in recs:
+        mine, offered = [], 0
+        while k < len(writes) and offered < r["j"] + 1:
+            w = writes[k]
+            k += 1
+            mine.append(w)
+            if w["ret"] < 0:
+                break
+            offered += w["ret"]
+        out.append(mine)
+    return out, writes[k:]
+
+
+def judge_appenders(ctx, s, vals, meta, dist, distinct):
+    """model-free oracle on one appenders scenario; queues the model cases. Returns the number of AppendTo calls judged."""
+    rep = {"scenario": app_compact(s), "replay_spec": app_spec(s)}
+    recs, lines, writes = s["recs"] or [], s["lines"] or [], s["writes"] or []
+    want = s["procs"] * sum(len(x) for x in s["sizes"])
+    if s.get("setup_err") == "strace not usable":
+        ctx.notes.append("strace is not usable here: scenario %s skipped" % s["mode"])
+        return 0
+    if s.get("setup_err") or len(recs) != want:
+        ctx.violation("C06:harness-setup", "appenders scenario %s: %s; %d of %d AppendTo calls reported; %s" %
+                      (s["mode"], s.get("setup_err"), len(recs), want, (s.get("stderr") or "")[-200:]), rep, False)
+        return 0
+    for r in recs:
+        dist["appenders/%s/%s" % (s["mode"], size_class(r["j"]))] += 1
+        distinct.add(json.dumps(["appenders", s["mode"], r["j"]]))
+    ok = {r["tag"]: r for r in recs if not r.get("err")}
+    refused = {r["tag"]: r for r in recs if r.get("err")}
+    concurrent = s["mode"] in ("goroutines", "processes", "strace-delay")
+    # ---- the property, on the file: exactly one complete JSON object per line, one line per successful AppendTo
+    torn, seen = [], collections.Counter()
+    if s["tail_len"]:
+        torn.append("%d bytes after the last line feed" % s["tail_len"])
+    for i, l in enumerate(lines):
+        if l.get("bad"):
+            torn.append("line %d (%d bytes) %s: %r" % (i + 1, l["len"], l["bad"], l.get("head", "")[:40]))
+            continue
+        r = ok.get(l["tag"]) or refused.get(l["tag"])
+        if r is None:
+            torn.append("line %d holds a record nobody appended (%s)" % (i + 1, l["tag"]))
+        elif l["len"] != r["j"]:
+            torn.append("line %d holds record %s with %d bytes instead of %d" % (i + 1, l["tag"], l["len"], r["j"]))
+        seen[l["tag"]] += 1
+    for tag in ok:
+        if seen[tag] != 1:
+            torn.append("record %s (AppendTo returned nil, %d bytes) is on %d lines" % (tag, ok[tag]["j"], seen[tag]))
+    if s["mode"] not in ("strace-fault", "fsize") and refused:
+        ctx.violation("C06:spec:healthy-sinks-refused", "AppendTo failed on a writable file: %s" % list(refused.values())[0]["err"][:160], rep)
+    if torn:
+        sizes = sorted({r["j"] for r in recs})
+        who = "%d process(es) x %d goroutine(s)" % (s["procs"], len(s["sizes"]))
+        if s["mode"] == "fsize":
+            ctx.violation("C06:AppendTo:partial-write-torn-line", "file size limit %d reached inside a record (write(2) takes part of the line, the next call fails), limit lifted, next "
+                          "AppendTo returns nil: its record is glued to the piece left behind: %s" % (s["fail_k"], "; ".join(torn[:2])), rep)
+        elif s["mode"] == "strace-fault" and not ok:
+            ctx.violation("C06:spec:refused-append-leaves-partial-line", "write(2) number %d failed, AppendTo returned an error, but part of the line is in the file: %s" %
+                          (s["fail_k"], "; ".join(torn[:2])), rep)
+        elif concurrent:
+            ctx.violation("C06:spec:audit-file-torn", "concurrent AppendTo calls (%s, record lengths %s..%s, mode %s): %d of %d lines are not exactly one complete "
+                          "record: %s" % (who, sizes[0], sizes[-1], s["mode"], len(torn), len(lines), "; ".join(torn[:3])), rep)
+        else:
+            ctx.violation("C06:spec:append-record-missing-or-wrong", "AppendTo calls one after the other (%s): %s" % (s["mode"], "; ".join(torn[:3])), rep)
+    # ---- the mechanism, from strace: one write(2) per record, carrying the whole line; a failed write is reported
+    if s["mode"] in ("strace-seq", "strace-fault") or s["mode"] == "fsize" and writes:
+        per, rest = attribute_writes(recs, writes)
+        for r, ws in zip(recs, per):
+            sizes = [w["size"] for w in ws]
+            failed = [w for w in ws if w["ret"] < 0]
+            short = [w for w in ws if 0 <= w["ret"] < w["size"]]
+            if failed and not r.get("err"):
+                ctx.violation("C06:spec:append-write-error-swallowed", "record of %d bytes: write(2) number %d on the audit file failed (%s) but AppendTo returned nil; the "
+                              "caller would return the signature" % (r["j"], s["fail_k"], failed[0].get("note", "")[:40]), rep)
+            if not failed and not short and sizes != [r["j"] + 1]:
+                ctx.violation("C06:spec:record-split-across-writes", "a record of %d bytes (+ line feed) reached the audit file in %d write(2) calls of %s bytes instead of one of %d: "
+                              "O_APPEND makes each call atomic, not the pair, so concurrent appenders can get in between" % (r["j"], len(sizes), sizes, r["j"] + 1), rep, False)
+            if r["j"] <= MODEL_MAX_J:
+                fail_at = [i for i, w in enumerate(ws) if w["ret"] < 0]
+                vals.append([3, r["j"], fail_at[0] if fail_at else -1, True, True, short[0]["ret"] if short else 0])
+                meta.append(("append", s, (r, ws)))
+        if rest:
+            ctx.violation("C06:harness-setup", "strace reported %d write(2) calls on the audit file that belong to no record" % len(rest), rep, False)
+    if s["mode"] == "strace-delay":
+        split = collections.Counter(w["size"] for w in writes)
+        expect = collections.Counter(r["j"] + 1 for r in recs)
+        if split != expect and not torn:
+            ctx.violation("C06:spec:record-split-across-writes", "write(2) sizes on the audit file %s differ from one call per record %s" %
+                          (sorted((split - expect).items())[:4], sorted((expect - split).items())[:4]), rep, False)
+        # schedule for the model: which appender performed each call (every appender is locked to a thread)
+        g = len(s["sizes"])
+        tid2app = {}
+        for r in recs:
+            p_, g_, _ = r["tag"].split("-")
+            tid2app[r["tid"]] = int(p_[1:]) * g + int(g_[1:])
+        if all(w["tid"] in tid2app for w in writes) and sum(r["j"] + 1 for r in recs) <= MODEL_MAX_FILE:
+            vals.append([4, [list(x) for _ in range(s["procs"]) for x in s["sizes"]], [tid2app[w["tid"]] for w in writes]])
+            meta.append(("sched", s, None))
+    return len(recs)
+
+
+def size_class(j):
+    for b in (4096, 8192, 16384, 32768, 65536):
+        if abs(j - b) <= 3:
+            return "%d%+d" % (b, j - b)
+    return "<4096" if j < 4096 else "<8192" if j < 8192 else "<65536" if j < 65536 else ">65536"
+
+
+def compare_appenders(kind, s, r, m):
+    """model output vs what strace / the file showed. Returns None or a description of the difference."""
+    if kind == "append":
+        rec, ws = r
+        ret, sizes, oks, ends, bad = m
+        got = (0 if rec.get("err") else 1, [w["ret"] if w["ret"] >= 0 else w["size"] for w in ws], [1 if w["ret"] >= 0 else 0 for w in ws])
+        exp = (ret, sizes, oks)
+        if bad or got != exp:
+            return "AppendTo of a %d-byte record%s: model (returned nil, write(2) sizes, successes) = %s vs implementation %s" % (
+                rec["j"], " with write %d failing" % s["fail_k"] if s["mode"] == "strace-fault" else "", exp, got)
+        return None
+    if m[0] == 0:
+        return "%s: the write(2) calls strace saw (%d) do not fit the calls the model makes for these records" % (s["mode"], len(s["writes"] or []))
+    got = (sorted(l["len"] for l in s["lines"] or []), s["tail_len"])
+    exp = (sorted(m[1]), m[2])
+    if got != exp:
+        return "%s: line lengths of the file under the observed schedule: model %s... vs implementation %s..." % (s["mode"], str(exp)[:120], str(got)[:120])
+    return None
+
+
 def run(ctx, replay=None):
     st = ctx.prepare(["C06_gen"], ["C06"], "C06.Run")
     if not st["harness_ok"]:
@@ -108,6 +259,9 @@ def body(ctx, st, replay):
     dist = collections.Counter()
     vals, meta = [], []
     for s in scen:
+        if s["kind"] == "appenders":
+            n_eval += judge_appenders(ctx, s, vals, meta, dist, distinct)
+            continue
         amqp_ok, file_ok, sink_bad = sinks_state(s)
         dist["%s/sinks=%s/file=%s/broker=%s" % (s["kind"], s["sinks"], s["file_fault"] or "ok", s["broker"] or "-")] += max(1, len(s["reqs"] or []), s["concurrent"])
         if s.get("setup_err"):
@@ -194,6 +348,13 @@ def body(ctx, st, replay):
     n_corr = 0
     if st["model_ok"] and vals:
         for (kind, s, r), m in zip(meta, ctx.run_model(vals)):
+            if kind in ("append", "sched"):
+                diff = compare_appenders(kind, s, r, m)
+                if diff:
+                    n_corr += 1
+                    if n_corr <= 2 and not any(v[2] for v in ctx.violations):
+                        ctx.violation("C06:correspondence:appendto", diff, {"scenario": app_compact(s), "replay_spec": app_spec(s), "broken": "correspondence C06.Run (Append.v)"}, False)
+                continue
             amqp_listening = s["amqp_conf"] and s["broker"] in LISTENING
             if kind == "totals":
                 n200, n_amqp, n_file, att = m
@@ -221,17 +382,21 @@ def body(ctx, st, replay):
     stand = [s for s in scen if s["kind"] == "standalone"]
     if any(s["exit"] == 0 and s["file_conf"] and not record_errors((s.get("new_lines") or ["{}"])[0], {}) and "client.filename" not in (s.get("new_lines") or ["{}"])[0] for s in stand):
         ctx.notes.append("observation: the record written by standalone `relic sign` names key, type, digest and certificate but carries no file name / client attribute")
-    cov = ctx.proof_coverage(["srcgen: ordered call tables of serveSign, signCmd, PublishAudit, AppendTo; sink-selection conditions",
+    cov = ctx.proof_coverage(["srcgen: ordered call tables of serveSign, signCmd, PublishAudit, AppendTo; sink-selection conditions; AppendTo statement by statement as an I/O program (writer of every Write / WriteByte / WriteString / Fprintf / Flush, payloads, buffer appends, bufio sizes, error tests, branches on the record length, open(2) flags); bufio's default buffer size and the runtime's cap on one write(2) from GOROOT",
+                              "harness (system calls): the real audit.Info.AppendTo on records of exact JSON length (long valid file names) around 4096 / 8192 / 16384 / 32768 / 65536 and up to 128 KiB (1 MiB thorough) under strace -f -y -P <audit file> -e trace=write: calls per record, their sizes, injected ENOSPC on the k-th call, delayed return of every call with 3 processes x 3 threads and 8 threads appending at once; 16 goroutines and 4 processes x 4 goroutines appending mixed lengths without strace; the file parsed line by line",
                               "harness: in-process server (server.VerifNew + production openTokens, real file token, real signers) with audit file faults (missing directory, directory in place of file, /dev/full, immutable file) and an in-process AMQP 0-9-1 broker written from the protocol specification (harness/p/c06/broker.go: PLAIN auth, exchange.declare, confirm.select, publish, ack/nack) with behaviours accept / refuse / drop after publish / nack / slow ack / reject credentials; response writer that snapshots both sinks when the response starts; real `relic sign` binary for the standalone path; 2 x 384+ concurrent signing requests",
                               "O_APPEND single-write atomicity is the kernel's; the harness broker stands in for a real broker (TLS / EXTERNAL auth not exercised)"], FP)
     seq = [s for s in scen if s["kind"] == "sequential"]
     pick = [s for s in seq if s["sinks"] == "both" and (s["file_fault"], s["broker"]) in (("", "accept"), ("disk-full", "accept"), ("", "nack"))] or seq[:3]
     cov.update({"evaluations": n_eval, "distinct_nontrivial": len(distinct),
-                "rule": "sinks {none, file, amqp, both} x audit-file fault {none, missing dir, is a directory, /dev/full, read-only} x broker behaviour {accept, refuse, accept_then_drop, nack, slow, reject_auth} x 9 request kinds (3 signature types, alias, 2 clients, refused / malformed / unsignable requests), sequentially; concurrent batches 32x12 (quick) / 64x60 (thorough) with 0.2-3 KB records on the file alone and on file + healthy broker; standalone binary under the same sink grid (without is-a-directory and reject_auth)",
+                "rule": "sinks {none, file, amqp, both} x audit-file fault {none, missing dir, is a directory, /dev/full, read-only} x broker behaviour {accept, refuse, accept_then_drop, nack, slow, reject_auth} x 9 request kinds (3 signature types, alias, 2 clients, refused / malformed / unsignable requests), sequentially; concurrent batches 32x12 (quick) / 64x60 (thorough) with file names of 0.2-70 KB (records on both sides of 4096 / 8192 / 65536 bytes) on the file alone and on file + healthy broker; standalone binary under the same sink grid (without is-a-directory and reject_auth)",
                 "input_distribution": dict(sorted(dist.items())),
-                "scenario_kinds": {"sequential": len(seq), "concurrent": len([s for s in scen if s["kind"] == "concurrent"]), "standalone": len(stand)},
+                "scenario_kinds": {"sequential": len(seq), "concurrent": len([s for s in scen if s["kind"] == "concurrent"]), "standalone": len(stand),
+                                   "appenders": collections.Counter(s["mode"] for s in scen if s["kind"] == "appenders")},
                 "samples": [{"sinks": s["sinks"], "fault": s["file_fault"], "broker": s["broker"], "statuses": [r["status"] for r in s["reqs"]],
                              "audit_lines": s["lines"], "broker_stored": s["stored"], "broker_received": s["received"]} for s in pick[:3]],
                 "standalone": [{"sinks": s["sinks"], "fault": s["file_fault"], "broker": s["broker"], "exit": s["exit"], "output_exists": s["output_exists"]} for s in stand],
                 "model_mismatches": n_corr})
-    return ctx.finish("proof", cov, ["O_APPEND atomic single write", "harness AMQP broker in place of a real one (plain TCP, SASL PLAIN)"])
+    return ctx.finish("proof", cov, ["each write(2) on an O_APPEND descriptor is atomic with respect to other writers (the kernel's); os.File.Write issues one write(2) for up to 2^30 bytes and a regular file takes it whole or fails (short writes not modelled)",
+                                     "encoding/json output contains no raw line feed (checked on every line of the real file)",
+                                     "harness AMQP broker in place of a real one (plain TCP, SASL PLAIN)"])
